@@ -368,6 +368,8 @@ def recency_order(cx, chk, cfg, F):
     from . import c06
     from .lib import ntrun
     c06.use_ops(cx, _Remap(chk, "C14.R6", ("C06.R1",)), cfg, F)
+    # ... and nothing else moves an entry: the non-use operations of RawLRU and the hit branch of its *_or_put helpers mutate nothing
+    c06.nonuse(cx, _Remap(chk, "C14.R6", ("C06.R1",)), cfg, F)
     n = bad = 0
     for f, p, w in ntrun.walk(cx, cfg):
         n += 1
